@@ -222,6 +222,32 @@ for _rc in (0, 1):
                                   desc="the same for an equilibrium built directly from arrays (no gfile psi scalars)", bounds="psi2D 2x2, profiles of length 3, all values symbolic"))
 
 
+def _sqrt_mirror(case):
+    def body(env):
+        import harness.c10 as m   # resolved at call time
+        return m._mk_sqrt_mirror(case)(env)
+    return body
+
+
+for _case in ("X.wall", "wall.wall", "X.X", "one_end"):
+    OBLIGATIONS.append(Ob("sqrt_spacing_mirror_" + _case, _sqrt_mirror(_case), tier="quick", family="mirror",
+                          encodes=["hypnotoad.core.equilibrium:EquilibriumRegion.getSqrtPoloidalDistanceFunc"],
+                          desc="the sqrt spacing function of a leg and that of its mirror image (end parameters exchanged) are mirror images, s_mirror(N-i) = L - s(i), also in "
+                               "the guard-cell range beyond a wall end (exponential continuation)",
+                          bounds="all parameters symbolic; index inside (0.01..0.99 N) or 0.01..4 beyond a wall end", max_paths=60))
+
+
+def _monotonic_mirror(env):
+    import harness.c10 as m   # resolved at call time
+    return m.ob_monotonic_mirror(env)
+
+
+OBLIGATIONS.append(Ob("monotonic_spacing_mirror_convex", _monotonic_mirror, tier="quick", family="mirror",
+                      encodes=["hypnotoad.core.equilibrium:EquilibriumRegion.getMonotonicPoloidalDistanceFunc"],
+                      desc="exchanging d_lower and d_upper gives the mirror-image monotonic spacing function (convex case), also in the guard-cell range beyond both ends",
+                      bounds="all parameters symbolic; convex case only (the concave case depends on brentq roots)", max_paths=20))
+
+
 def _spacing_wiring(env):
     import harness.c10 as m   # resolved at call time
     return m.ob_spacing_wiring(env)
